@@ -13,7 +13,7 @@ func init() {
 	}
 	props["C04"] = propCfg{
 		Level:  "exploration",
-		Quick:  tierCfg{Runs: 300000, Deadline: 45, RunMS: 30000, MinimiseS: 20},
+		Quick:  tierCfg{Runs: 300000, Deadline: 75, RunMS: 30000, MinimiseS: 20},
 		Thor:   tierCfg{Runs: 30000000, Deadline: 540, RunMS: 30000, MinimiseS: 120},
 		Rule:   "each run draws a message length (dense at 0,55,56,63,64,65,119,120,k*64±1, up to 8 KiB; rarely 1-4 MiB), a partition into writes (incl. empty and 1-byte writes, one reused buffer overwritten after Write returns) and an operation history of <=32 ops over {Write, Sum(nil), Sum(prefix with/without spare capacity), Reset, Size}; the same history is applied to the independent reference SM3 and compared after every op; HMAC-SM3 and PBKDF2-SM3 are instantiated over both. distinct_nontrivial = distinct run signatures (hash of message length and the op/chunk sequence).",
 		Real:   realAll,
